@@ -27,7 +27,7 @@ def gen_case(rng, layer=None, role=None):
         size = min(size, 60 * 30 if fd else 7 * 40)           # keep broadcast durations moderate
     case = dict(layer=layer, role=role, size=size, w=rng.choice([1, 1, 2, 3, 7, 16, 255, rng.randint(1, 255)]),
                 dp=rng.randrange(2), pf=rng.choice([0xD0, 0xC9, 0x00, 0xEF, rng.randrange(0, 240)]), prio=rng.randrange(8),
-                zero=0.0 if fd else rng.choice([0.0, 0.0, 0.5, 1.0]), lat=rng.choice([(1e-5, 0.005), (1e-5, 0.0005)]),
+                zero=rng.choice([0.0, 0.0, 0.5, 1.0]), lat=rng.choice([(1e-5, 0.005), (1e-5, 0.0005)]),
                 grant=rng.choice(['random', 'random', 'max', 'one']), holds=rng.choice([(0, 0), (0, 3), (1, 3)]),
                 reply=rng.choice([(0.0, 0.0), (0.0, 0.001), (0.0, 0.15), (0.05, 0.15)]), hold_between=rng.choice([0.0, 0.3]),
                 limit=rng.choice([1, 2, 3, 8, 255, rng.randint(1, 255)]), pacing=rng.choice([(0.0, 0.0), (0.0, 0.002), (0.0, 0.05), (0.05, 0.19)]),
@@ -85,10 +85,10 @@ def run_exchange(case):
         W.run(0.01)
         if bam:
             box = {}
-            sim.at(t0, lambda: box.update(d=O.bam(pgn_wire, bytes(pay), tuple(case['bam_spacing']), session=rng.randrange(4) if fd else 0)))
+            sim.at(t0, lambda: box.update(d=O.bam(pgn_wire, bytes(pay), tuple(case['bam_spacing']), session=rng.randrange(16) if fd else 0)))
             dur = (npk + 2) * (case['bam_spacing'][1] + 0.001) + 2
         else:
-            sim.at(t0, lambda: O.start(STACK, pgn_sub, bytes(pay), case['limit'], session=rng.randrange(8) if fd else 0))
+            sim.at(t0, lambda: O.start(STACK, pgn_sub, bytes(pay), case['limit'], session=rng.randrange(16) if fd else 0))
             dur = npk * (case['pacing'][1] + 0.012) + 3
     else:
         B = W.stack('B', max_cmdt_packets=case.get('w2', 255))
